@@ -1,5 +1,4 @@
 import BareProofs.C10Lemmas
-import BareModel.Gen.Regex
 
 /-!
 # C10 — source layout does not change the parsed program
@@ -8,7 +7,8 @@ Everything `parse_script` does before a statement reaches the lowering is modell
 lines, comment test, continuation, the line loop) and `BareModel/Scan.lean` (the statement regex cascade).  The theorems
 below are for **all** texts / line lists (no bound on sizes):
 
-* `patterns_pinned`            the regex sources the recognisers were written for are the ones in parser.py *now*
+* (`BareProofs/C10Pins.lean`: `patterns_pinned` — the regex sources the recognisers were written for are the ones in
+  parser.py *now*; kept in a module of its own so that a changed pattern breaks that obligation only)
 * `splitLines_no_newline`      physical lines never contain a line feed
 * `split_join`, `crlf_eq_lf`, `crlf_eq_lf_text`   LF, CRLF or any mixture of terminators: same physical lines
 * `split_chunks_exact`, `chunking_irrelevant`     cutting the text into chunks at line terminators (the terminator is
@@ -30,41 +30,6 @@ below are for **all** texts / line lists (no bound on sizes):
 
 namespace C10
 open Text Scan
-
-/-! ## the tie to the pattern sources -/
-
-def patternOf (name : String) : Option (String × Nat) := (Gen.regexes.find? (·.1 == name)).map (·.2)
-
-/-- the statement patterns (and the three text-layer patterns) `Text`/`Scan` were written for -/
-def pinned : List (String × String × Nat) := [
-  ("parser._R_EXPR_STRING_ESCAPE", "\\\\([\\\\\\'])", 32),
-  ("parser._R_SCRIPT_ASSIGNMENT", "^\\s*(?P<name>[A-Za-z_]\\w*)\\s*=\\s*(?P<expr>.+)$", 32),
-  ("parser._R_SCRIPT_BREAK", "^\\s*break\\s*$", 32),
-  ("parser._R_SCRIPT_COMMENT", "^\\s*(?:#.*)?$", 32),
-  ("parser._R_SCRIPT_CONTINUATION", "\\\\\\s*$", 32),
-  ("parser._R_SCRIPT_CONTINUE", "^\\s*continue\\s*$", 32),
-  ("parser._R_SCRIPT_FOR_BEGIN", "^\\s*for\\s+(?P<value>[A-Za-z_]\\w*)(?:\\s*,\\s*(?P<index>[A-Za-z_]\\w*))?\\s+in\\s+(?P<values>.+)\\s*:\\s*$", 32),
-  ("parser._R_SCRIPT_FOR_END", "^\\s*endfor\\s*$", 32),
-  ("parser._R_SCRIPT_FUNCTION_ARG_SPLIT", "\\s*,\\s*", 32),
-  ("parser._R_SCRIPT_FUNCTION_BEGIN", "^(?P<async>\\s*async)?\\s*function\\s+(?P<name>[A-Za-z_]\\w*)\\s*\\(\\s*(?P<args>[A-Za-z_]\\w*(?:\\s*,\\s*[A-Za-z_]\\w*)*)?(?P<lastArgArray>\\s*\\.\\.\\.)?\\s*\\)\\s*:\\s*$", 32),
-  ("parser._R_SCRIPT_FUNCTION_END", "^\\s*endfunction\\s*$", 32),
-  ("parser._R_SCRIPT_IF_BEGIN", "^\\s*if\\s+(?P<expr>.+)\\s*:\\s*$", 32),
-  ("parser._R_SCRIPT_IF_ELSE", "^\\s*else\\s*:\\s*$", 32),
-  ("parser._R_SCRIPT_IF_ELSE_IF", "^\\s*elif\\s+(?P<expr>.+)\\s*:\\s*$", 32),
-  ("parser._R_SCRIPT_IF_END", "^\\s*endif\\s*$", 32),
-  ("parser._R_SCRIPT_INCLUDE", "^\\s*include\\s+(?P<delim>\\')(?P<url>(?:\\\\\\'|[^\\'])*)\\'\\s*$", 32),
-  ("parser._R_SCRIPT_INCLUDE_SYSTEM", "^\\s*include\\s+(?P<delim><)(?P<url>[^>]*)>\\s*$", 32),
-  ("parser._R_SCRIPT_JUMP", "^(?P<jump>\\s*(?:jump|jumpif\\s*\\((?P<expr>.+)\\)))\\s+(?P<name>[A-Za-z_]\\w*)\\s*$", 32),
-  ("parser._R_SCRIPT_LABEL", "^\\s*(?P<name>[A-Za-z_]\\w*)\\s*:\\s*$", 32),
-  ("parser._R_SCRIPT_LINE_SPLIT", "\\r?\\n", 32),
-  ("parser._R_SCRIPT_RETURN", "^(?P<return>\\s*return(?:\\s+(?P<expr>\\S.*))?)\\s*$", 32),
-  ("parser._R_SCRIPT_WHILE_BEGIN", "^\\s*while\\s+(?P<expr>.+)\\s*:\\s*$", 32),
-  ("parser._R_SCRIPT_WHILE_END", "^\\s*endwhile\\s*$", 32)
-]
-
-/-- The patterns of the working tree are the pinned ones (a changed pattern breaks this obligation; the correspondence
-streams and the search then decide whether the property still holds). -/
-theorem patterns_pinned : pinned.all (fun p => patternOf p.1 == some p.2) = true := by decide +kernel
 
 /-! ## physical lines -/
 
@@ -344,6 +309,32 @@ theorem logical_lines_compositional (pre post : List Chars) (h : (logicalLinesL 
     rw [kept_shift pre.length post 0, ← loopK_reindex (· + pre.length) _ [] 0]
     exact loopK_nil_ix _ _ _
   rw [this]
+
+/-! ## the `String` interface -/
+
+/-- the `String` interface is the `List Char` model, wrapped -/
+theorem scriptLines_eq (chunks : List String) :
+    scriptLines chunks =
+      (let r := logicalLinesL (splitChunksL (chunks.map String.toList))
+       (r.1.map (fun x => (x.1, String.ofList x.2)), r.2.map LineErr.ofDangling)) := by
+  unfold scriptLines logicalLinesCore
+  have : (chunks.flatMap splitLines).map String.toList = splitChunksL (chunks.map String.toList) := by
+    unfold splitChunksL splitLines
+    induction chunks with
+    | nil => rfl
+    | cons c cs ih => simp [List.flatMap_cons, ih, Function.comp_def]
+  rw [this]
+
+/-- chunking at the `String` interface: chunks `c₀, c₁, …` cut at terminators give the logical lines (texts, indices,
+dangling error) of the whole text -/
+theorem scriptLines_chunks (c : Chars) (cs : List (Bool × Chars)) (h : cutsOK c cs = true) :
+    scriptLines ((c :: cs.map Prod.snd).map String.ofList) = scriptLines [String.ofList (joinCuts c cs)] := by
+  rw [scriptLines_eq, scriptLines_eq]
+  have e1 : ((c :: cs.map Prod.snd).map String.ofList).map String.toList = c :: cs.map Prod.snd := by
+    simp [Function.comp_def]
+  have e2 : ([String.ofList (joinCuts c cs)]).map String.toList = [joinCuts c cs] := by simp
+  rw [e1, e2, split_chunks_exact c cs h]
+  simp [splitChunksL]
 
 /-! ## the statement cascade -/
 
